@@ -78,6 +78,31 @@ class Stage:
         the object as good as new."""
         return None
 
+    # memory representations of the same values that the stage accepts on the pinned tree (probed): non-native byte
+    # order (what astropy hands back for columns read from a FITS file), 2-D Fortran-ordered and transposed arrays
+    layouts = ("bigendian", "fortran2d", "transposed2d")
+
+    def call_layout(self, obj, arrays, c, kind, shape):
+        """Calls the stage with the same per-event values in another memory representation; returns the outputs
+        flattened back to event order (C order of the 2-D shape)."""
+        r, q = shape
+        if kind == "bigendian":
+            ins = tuple(np.array(a, dtype=np.float64).astype(">f8") for a in arrays)
+        elif kind == "fortran2d":
+            ins = tuple(np.asfortranarray(np.array(a, dtype=np.float64).reshape(r, q)) for a in arrays)
+        else:  # transposed2d: element [i, j] of the (r, q) input is event i*q + j, memory runs along i
+            ins = tuple(np.ascontiguousarray(np.array(a, dtype=np.float64).reshape(r, q).T).T for a in arrays)
+        snap = [np.ascontiguousarray(a).tobytes() for a in ins]
+        outs = [np.asarray(o) for o in self.call(obj, ins, c)]
+        require([np.ascontiguousarray(a).tobytes() for a in ins] == snap, f"{self.name} modified its ({kind}) inputs")
+        if kind == "bigendian":
+            return outs
+        flat = []
+        for o in outs:
+            require(o.shape[:2] == (r, q), f"{self.name}: output of shape {o.shape} for inputs of shape {(r, q)}")
+            flat.append(np.ascontiguousarray(o).reshape((r * q,) + o.shape[2:]))
+        return flat
+
 
 class GeomThrow(Stage):
     name = "geometry.throw"
@@ -103,8 +128,16 @@ class GeomThrow(Stage):
         rows[:, 3] = np.clip(rows[:, 3], 1e-6, 1.0)
         return (rows[:, 0].copy(), rows[:, 1].copy(), rows[:, 2].copy(), rows[:, 3].copy())
 
-    def call(self, obj, arrays, c):
-        u = np.stack(arrays)  # (4, N); the stage receives one array: purity is checked on it below
+    layouts = ("bigendian", "fortran2d")
+
+    def call_layout(self, obj, arrays, c, kind, shape):
+        u = np.stack([np.array(a, dtype=np.float64) for a in arrays])
+        u = u.astype(">f8") if kind == "bigendian" else np.asfortranarray(u)
+        return [np.asarray(o) for o in self.call(obj, arrays, c, u=u)]
+
+    def call(self, obj, arrays, c, u=None):
+        if u is None:
+            u = np.stack(arrays)  # (4, N); the stage receives one array: purity is checked on it below
         ub = u.tobytes()
         obj.throw(u)
         require(u.tobytes() == ub, "RegionGeom.throw modified the array of random numbers it was given")
@@ -128,6 +161,7 @@ class GeomThrow(Stage):
 class TargetThrow(Stage):
     name = "geometry.target"
     max_n = 300
+    layouts = ("bigendian",)
 
     def make(self, case):
         from nuspacesim.simulation.geometry.region_geometry import RegionGeomToO
@@ -206,7 +240,7 @@ class TausCall(TauEnergy):
 
     def call(self, obj, arrays, c):
         beta, log_e = arrays
-        with scripted(np.full(2 * len(beta) + 8, c)):
+        with scripted(np.full(2 * int(np.size(beta)) + 8, c)):
             return list(obj(beta, log_e))
 
 
@@ -234,6 +268,7 @@ class AltDec(Stage):
 
 class Spectrum(Stage):
     name = "spectra"
+    layouts = ()  # takes a count, no arrays
 
     def other_case(self, case):
         return dict(case, spectrum={"id": "powerspectrum", "index": 2.6, "lower_bound": 6.5, "upper_bound": 11.0})
@@ -309,6 +344,7 @@ class Optical(Stage):
 class Radio(Stage):
     name = "radio"
     max_n = 2000
+    layouts = ("bigendian",)  # rejects N-D inputs on the pinned tree: no claim
 
     def other_case(self, case):
         return dict(case, det={525.0: 33.0, 33.0: 2000.0, 2000.0: 525.0}[case["det"]])
@@ -449,6 +485,14 @@ def body_stage(case):
             require([v.tobytes() for v in views] == snap, f"{stage.name} modified its (strided) inputs")
             want = base
             labels.add("strided_inputs")
+        elif which in ("bigendian", "fortran2d", "transposed2d"):
+            r_ = next((d for d in (2, 3, 5, 7) if n % d == 0 and n > d), None)
+            if which not in stage.layouts or (which != "bigendian" and r_ is None):
+                continue
+            with cut(f"{stage.name}({which} inputs)"):
+                r = stage.call_layout(obj, arrays, c, which, (r_, n // r_) if r_ else (1, n))
+            want = base
+            labels.add(f"layout_{which}")
         elif which == "reject":
             rejected = False
             try:
@@ -615,7 +659,7 @@ def stage_case(names, sizes):
             "c": st.floats(0.01, 0.99),
             "perm": st.lists(st.floats(0.0, 1.0), min_size=16, max_size=16),
             "split": st.sampled_from(["0", "1", "n-1", "n", "0.5", "0.37", "0.9", "0.41"]),
-            "history": st.lists(st.sampled_from(["same", "perm", "half", "refill", "refill", "scribble", "alt", "other", "other", "strided", "reject", "reject"]), min_size=1, max_size=6),
+            "history": st.lists(st.sampled_from(["same", "perm", "half", "refill", "refill", "scribble", "alt", "other", "other", "strided", "reject", "reject", "bigendian", "fortran2d", "transposed2d"]), min_size=1, max_size=6),
         }
     )
 
